@@ -20,6 +20,8 @@ OpsBad == LET o == Obs[i]
              \cup (IF Cardinality(off) # Len(o.offered) THEN {"offered-duplicates"} ELSE {})
              \cup (IF o.selected # Counts(shape, filt).selected THEN {"selected-count"} ELSE {})
              \cup (IF o.total # Counts(shape, filt).total THEN {"total-count"} ELSE {})
-Report == LET bad == IF Obs[i].k = "doc" THEN DocBad ELSE OpsBad
+(* k = "hdoc": [s, hist << step >>, step, doc] - a document drawn at step `step` of a history replayed on ONE schema object *)
+HDocBad == HistDocViol(shape, Obs[i].hist, Obs[i].step, Obs[i].doc)
+Report == LET bad == IF Obs[i].k = "doc" THEN DocBad ELSE IF Obs[i].k = "hdoc" THEN HDocBad ELSE OpsBad
           IN IF bad = {} THEN TRUE ELSE PrintT(<<"BAD", i, bad>>)
 =============================================================================
